@@ -438,7 +438,7 @@ def input_class(case):
 
 
 def _is_100(kind, val):
-    return kind == "value" and isinstance(val, (int, float)) and not isinstance(val, bool) and abs(val - 100.0) <= EPS
+    return kind == "value" and isinstance(val, (int, float)) and not isinstance(val, bool) and val == 100      # exactly 100: the property says so, and matched / consumed * 100 with matched == consumed is exact
 
 
 def _bucket(val):
@@ -565,6 +565,12 @@ def _intact_cases(tier, seed, prop):
                             continue
                         for via in ("root", "parent"):
                             yield mk(layout_of(shape, list(sizes)), via)
+                # totals t for which t * (100 / t) != 100.0 in binary floating point (a percentage computed through a reciprocal
+                # reports 99.99999999999999 / 100.00000000000001 for intact content)
+                if pl == 16384:
+                    for s in (11, 22, 39, 100001):
+                        yield mk({"single": s}, "root")
+                    yield mk(layout_of("flat", [65536, 0, 34465]), "root")
                 # identical files (one piece-layers entry serves several files)
                 for sizes in ((2 * pl + 1, 2 * pl + 1), (pl, pl, pl), (3 * pl, 1, 3 * pl)):
                     lay = layout_of("flat", list(sizes))
